@@ -545,6 +545,13 @@ def State.indThenObj (st : State) (cls : String) (key : Option String) (iname : 
       | none => fail st' .other
   | r => r
 
+/-- helper: the indicator is created and registered, then the constructor raises (residue) -/
+def State.indThenFail (st : State) (cls : String) (key : Option String) (iname : String)
+    (bounds : Option (Int × Int)) (body : IBody) (e : Err) : Res :=
+  match st.addIndicator cls key iname bounds body with
+  | (st', none) => fail st' e
+  | r => r
+
 def schedTimes (f : Task → Term) (ts : List Task) : List Term :=
   ts.map (fun t => if t.optional then Term.ite (.bvar (.sched t.name)) (f t) (numT 0) else f t)
 
@@ -569,14 +576,19 @@ def stepObjective (st : State) : ODecl → Res
   | .startLatest ts => match st.tasksOrAll ts with
       | some l =>
           let v := Term.var (.named "SmallestStartTimeVar")
-          if l.isEmpty then fail st .assertion else
+          -- the indicator is created before `get_minimum` raises on the empty list: it stays registered
+          if l.isEmpty then
+            st.indThenFail "IndicatorFromMathExpression" (some "MinimumStartTime") "MinimumStartTime" none (.expr v []) .assertion
+          else
           st.indThenObj "IndicatorFromMathExpression" (some "MinimumStartTime") "MinimumStartTime" none
             (.expr v (getMinimum v (l.map (·.sVar)))) "MaximizeStartLatest" true
       | none => fail st .validation
   | .greatestStart ts => match st.tasksOrAll ts with
       | some l =>
           let v := Term.var (.named "GreatestStartTime")
-          if l.isEmpty then fail st .assertion else
+          if l.isEmpty then
+            st.indThenFail "IndicatorFromMathExpression" (some "GreatestStartTime") "GreatestStartTime" none (.expr v []) .assertion
+          else
           st.indThenObj "IndicatorFromMathExpression" (some "GreatestStartTime") "GreatestStartTime" none
             (.expr v (getMaximum v (l.map (·.sVar)))) "MinimizeGreatestStartTime" false
       | none => fail st .validation
